@@ -31,7 +31,7 @@ ANCHORS = [
     "acnportal.acnsim.interface:Interface._infrastructure_info",
     "acnportal.algorithms.utils:infrastructure_constraints_feasible",
 ]
-REQUIRED = ["integer_row_first_in_mapping", "explicit_tolerances_differ_from_network", "explicit_zero_tolerance_on_tolerant_network", "phasor_judged", "linear_judged", "near_boundary_judged", "constraint_free_sim_runs", "history_rejudged",
+REQUIRED = ["schedules_of_over_1000_periods", "decisive_column_positions_judged", "integer_row_first_in_mapping", "explicit_tolerances_differ_from_network", "explicit_zero_tolerance_on_tolerant_network", "phasor_judged", "linear_judged", "near_boundary_judged", "constraint_free_sim_runs", "history_rejudged",
             "history_op:remove_not_last", "history_op:update", "history_op:update_rename", "history_op:add",
             "regime:phasor-accept", "regime:phasor-reject", "regime:linear-accept", "regime:linear-reject",
             "regime:T>1", "regime:mixed-sign"]
@@ -91,6 +91,15 @@ def cases(seed, tier):
                 nd["tol"] = [rng.choice([0, 0, 1e-7]), rng.choice([0, 0, 1e-7])]
         out.append({"kind": "feas", "net": nd, "D": D, "k": rng.choice(KS), "mode": rng.choice(["phasor", "linear"]),
                     "omit": rng.random() < 0.3, "oseed": rng.randrange(1 << 30), "use_defaults": rng.random() < 0.25})
+        if i % (100 if tier == "quick" else 40) == 0:
+            # schedules of hundreds to thousands of periods, almost idle, with the one decisive column anywhere: first, last, in
+            # the middle, and on either side of every block seam a vectorised implementation might use (powers of two, hundreds)
+            Tl = rng.choice([257, 300, 513, 1000, 1025, 1500, 2049, 2500, 4100, 8200])
+            seams = sorted({x + dx for m in range(5, 14) for x in (2 ** m,) for dx in (-1, 0, 1)} |
+                           {x + dx for x in range(100, Tl, rng.choice([100, 128, 250, 256, 1000])) for dx in (-1, 0)} | {0, 1, Tl - 1, Tl - 2, Tl // 2})
+            seams = [x for x in seams if 0 <= x < Tl]
+            out.append({"kind": "feas_long", "net": _net(rng), "T": Tl, "seed": rng.randrange(1 << 30), "k": rng.choice(KS),
+                        "mode": rng.choice(["phasor", "linear"]), "hot": rng.choice(seams)})
         if i % 6 == 0:
             nd2 = _net(rng)
             T2 = rng.choice([1, 2, 3])
@@ -131,6 +140,8 @@ def _scale(nd, D, k, mode):
 
 def run_case(case, obs):
     kind = case["kind"]
+    if kind == "feas_long":
+        return _run_long(case, obs)
     if kind == "feas":
         return _run_feas(case, obs)
     if kind == "free":
@@ -154,6 +165,63 @@ def _run_feas(case, obs):
     alpha, ts = _scale(nd, D, case["k"], case["mode"])
     S = [[x * alpha for x in r] for r in D]
     _judge(nd, S, obs, ts=ts, omit=case["omit"], oseed=case["oseed"], use_defaults=case["use_defaults"], k=case["k"])
+
+
+def _run_long(case, obs):
+    """One direction scaled to k tolerance scales beyond/inside its tightest limit, placed as the single decisive column of an
+    otherwise almost idle schedule of T periods - at EVERY seam position in turn (first, last, middle, both sides of powers of
+    two and of multiples of 100/128/250/256/1000). The oracle's verdict does not depend on the position."""
+    from acnportal.algorithms.utils import infrastructure_constraints_feasible as icf
+    nd, T = case["net"], case["T"]
+    r2 = random.Random(case["seed"])
+    ids, A, L, ang, names = oracles.dense_rows(nd)
+    ns = len(ids)
+    at, rt = nd["tol"]
+    hotdir = [round(r2.random(), 4) if r2.random() < 0.8 else 0.0 for _ in range(ns)]
+    if not any(hotdir):
+        hotdir[0] = 1.0
+    net = build.build_network(nd)
+    iface = _iface(net)
+    info = iface.infrastructure_info()
+    seams = sorted({x + dx for m in range(4, 14) for x in (2 ** m,) for dx in (-1, 0, 1)} |
+                   {x + dx for step in (100, 128, 250, 1000) for x in range(step, T, step) for dx in (-1, 0)} | {0, 1, T - 1, T - 2, T // 2})
+    seams = [x for x in seams if 0 <= x < T]
+    if len(seams) > 70:
+        seams = sorted(set(r2.sample(seams, 60)) | {0, T - 1, T - 2} | {x for x in seams if x + 1 in (256, 512, 1024, 2048, 4096, 8192)})
+    obs.ev("schedules_of_over_1000_periods" if T > 1000 else "schedules_of_hundreds_of_periods")
+    g = oracles.guard(L)
+    for linear in (False, True):
+        mode = "linear" if linear else "phasor"
+        alpha, ts = _scale(nd, [[x] for x in hotdir], case["k"], mode)
+        hot = [x * alpha for x in hotdir]
+        base = [0.01 * x for x in hot]
+        m = max(oracles.margins(A, L, ang, [[x] for x in hot], at, rt, linear=linear)[0],
+                oracles.margins(A, L, ang, [[x] for x in base], at, rt, linear=linear)[0])
+        if abs(m) <= g:
+            obs.boundary += 1
+            continue
+        exp = m <= 0
+        Sm = np.zeros((ns, T))
+        Sm[:, ::97] = np.array(base)[:, None]
+        for n_, p in enumerate(seams):
+            keep = Sm[:, p].copy()
+            Sm[:, p] = hot
+            r_net = bool(net.is_feasible(Sm, linear=linear, violation_tolerance=at, relative_tolerance=rt))
+            r_alg = bool(icf(Sm, info, linear, at, rt))
+            r_if = None
+            if n_ % 8 == 0 or p >= T - 2:
+                r_if = bool(iface.is_feasible({i: Sm[r] for r, i in enumerate(ids)}, linear=linear, violation_tolerance=at, relative_tolerance=rt))
+            Sm[:, p] = keep
+            obs.ev("decisive_column_positions_judged")
+            obs.evals += 1
+            for nm, got in (("network", r_net), ("interface", r_if), ("algorithm", r_alg)):
+                if got is not None and got != exp:
+                    obs.violate(f"{mode}_{nm}_vs_oracle", f"{nm} says {got} for a schedule of {T} periods whose only decisive column is period {p}; "
+                                f"oracle margin {m!r}", network=nd, periods=T, decisive_period=p, column=hot, mode=mode, atol=at, rtol=rt)
+                    return
+    if len(A) >= 2:
+        obs.nontrivial()
+    obs.sample = {"kind": "long", "stations": ns, "constraints": len(A), "periods": T, "positions": len(seams)}
 
 
 def _judge(nd, S, obs, ts=1e-7, omit=False, oseed=0, use_defaults=False, tag=None, k=None, net=None, iface=None):
